@@ -17,9 +17,9 @@ VOID = frozenset("area base br col embed hr img input link meta param source tra
 RAWTEXT = frozenset("style script".split())
 RCDATA = frozenset("title textarea".split())
 
-TEXT_ATOMS = ["a", "b", "x", "y", "z", "1", "2", " ", " ", " ", "\n", "\t", "ab", "foo bar", "<", ">", "&", "\"", "'", "`", "=", "/", "&amp;", "&lt", "&#38;", "</p>", "<b>", "-->", "]]>",
+TEXT_ATOMS = ["\xc9COLE", "\xd1=1", "\xc0B", "\xd6l", "a", "b", "x", "y", "z", "1", "2", " ", " ", " ", "\n", "\t", "ab", "foo bar", "<", ">", "&", "\"", "'", "`", "=", "/", "&amp;", "&lt", "&#38;", "</p>", "<b>", "-->", "]]>",
               "\xe9", "\xa0", "\u2028", "\u8a9e", "\U0001F600", "-", "--", "!", "?", "#", ";", "amp;", "&notit;", "\x0c", "I", "\u0130", "\u212a"]
-WORD_ATOMS = ["a", "b", "x", "foo", "1", "\xe9", "\U0001F600", "&", "<", ">", "\"", "'", "-", "=", "`", "/"]
+WORD_ATOMS = ["\xc9COLE", "\xd1=1", "\xc0b", "a", "b", "x", "foo", "1", "\xe9", "\U0001F600", "&", "<", ">", "\"", "'", "-", "=", "`", "/"]
 ATTR_NAMES = ["id", "class", "title", "lang", "dir", "data-x", "data-y", "style", "accesskey", "tabindex", "role", "aria-label"]
 BOOL_GLOBAL = ["hidden", "irrelevant", "itemscope"]
 PHRASING_FMT = ["b", "i", "em", "strong", "span", "code", "small", "s", "u", "cite", "q", "abbr", "kbd", "sub", "sup", "mark", "bdo", "var", "samp", "dfn", "big", "tt", "font"]
@@ -685,23 +685,30 @@ def run_optional_tags_docs(acc, n, seed):
 
 
 def check_no_errors(case):
-    """C16 clause: conforming documents record no parse errors (and strict mode accepts them)."""
+    """C16 clause: conforming documents record no parse errors (and strict mode accepts them) - written with all tags
+    explicit and with every optional tag omitted that the standard allows to omit."""
     from vf import h5, obs
     from vf.core import Verdict, short, sig64
     from html5lib.html5parser import ParseError
     doc = case["doc"]
-    markup = writer(doc)
-    p = h5.parser("etree", True)
-    tree = p.parse(markup)
-    if p.errors:
-        e = p.errors[0]
-        return Verdict("fail", "conforming document records parse error %r at %r; markup %s" % (e[1], e[0], short(markup, 400)), "conforming-error:" + str(e[1]), nontrivial=True)
-    ps = h5.parser("etree", True, strict=True)
-    try:
-        ps.parse(markup)
-    except ParseError as e:
-        return Verdict("fail", "strict mode rejects a conforming document: %s; markup %s" % (e, short(markup, 400)), "conforming-strict", nontrivial=True)
-    return Verdict("pass", nontrivial=True, sig=sig64("noerr", markup), classes=["conforming-doc"])
+    want = obs.clarkify(flat(doc))
+    for variant, markup in (("explicit", writer(doc)), ("optional tags omitted", writer_omitting(doc))):
+        p = h5.parser("etree", True, full_tree=True)
+        tree = p.parse(markup)
+        if obs.clarkify(obs.flat(tree)) != want:
+            if variant == "explicit":
+                return Verdict("excluded", finding="generated tree not parsed back from the explicit writer (C01-class deviation)")
+            continue      # html5lib parses the tag-omitted form differently (C01-class deviation, e.g. dialog/p): not this clause's business
+        if p.errors:
+            e = p.errors[0]
+            return Verdict("fail", "conforming document (%s) records parse error %r at %r; markup %s" % (variant, e[1], e[0], short(markup, 400)),
+                           "conforming-error:" + str(e[1]), nontrivial=True)
+        ps = h5.parser("etree", True, strict=True)
+        try:
+            ps.parse(markup)
+        except ParseError as e:
+            return Verdict("fail", "strict mode rejects a conforming document (%s): %s; markup %s" % (variant, e, short(markup, 400)), "conforming-strict", nontrivial=True)
+    return Verdict("pass", nontrivial=True, sig=sig64("noerr", repr(want)), classes=["conforming-doc"])
 
 
 def run_no_error_docs(acc, n, seed):
@@ -711,3 +718,86 @@ def run_no_error_docs(acc, n, seed):
         case = {"kind": "conforming", "doc": doc}
         acc.add(case, check_no_errors(case), sample={"kind": "conforming", "markup": short(writer(doc), 300)})
     drive(_doc_strategy(40), fn, n, seed)
+
+
+# ---------------------------------------------------------------------------
+# conforming documents written with optional tags omitted (by the reference rules, not by html5lib's filter)
+
+def doc_tokens(doc):
+    """walker-format token stream of the document (our own)"""
+    out = []
+    if doc["doctype"]:
+        out.append({"type": "Doctype", "name": "html", "publicId": None, "systemId": None})
+    for c in doc["pre"]:
+        out.append({"type": "Comment", "data": c[1]})
+    stack = [doc["html"]]
+    while stack:
+        n = stack.pop()
+        if isinstance(n, dict):
+            out.append(n)
+            continue
+        if n[0] == "t":
+            out.append({"type": "Characters", "data": n[1], "raw": len(n) > 2})
+        elif n[0] == "c":
+            out.append({"type": "Comment", "data": n[1]})
+        else:
+            ns, name, attrs, kids = n[1], n[2], n[3], n[4]
+            data = {}
+            for a in attrs:
+                data[(a[0], a[1])] = a[2]
+            if ns == HTML_NS and name in VOID:
+                out.append({"type": "EmptyTag", "name": name, "namespace": ns, "data": data})
+                continue
+            out.append({"type": "StartTag", "name": name, "namespace": ns, "data": data})
+            stack.append({"type": "EndTag", "name": name, "namespace": ns})
+            raw = ns == HTML_NS and name in RAWTEXT
+            lead = ns == HTML_NS and name in ("pre", "textarea", "listing") and kids and kids[0][0] == "t" and kids[0][1].startswith("\n")
+            for c in reversed(kids):
+                stack.append(["t", c[1], True] if (raw and c[0] == "t") else c)
+            if lead:
+                stack.append(["t", "\n", True])
+    for c in doc["post"]:
+        out.append({"type": "Comment", "data": c[1]})
+    return out
+
+
+def omit_optional(tokens):
+    """drop every tag the reference optional-tag rules (vf/ref/optionaltags.py) allow to omit"""
+    from vf.ref import optionaltags as R
+    kept = []
+    removed_prev = False
+    n = len(tokens)
+    for i, t in enumerate(tokens):
+        prev = tokens[i - 1] if i else None
+        nxt = tokens[i + 1] if i + 1 < n else None
+        # whitespace-initial text counts as a space token for the rules
+        nx = nxt
+        if nxt is not None and nxt["type"] == "Characters" and nxt["data"][:1] in " \t\n\x0c\r":
+            nx = {"type": "SpaceCharacters", "data": nxt["data"]}
+        if t["type"] in ("StartTag", "EndTag") and R.may_omit(t, prev, nx, prev_removed=removed_prev):
+            removed_prev = True
+            continue
+        removed_prev = False
+        kept.append(t)
+    return kept
+
+
+def render_tokens(tokens):
+    out = []
+    for t in tokens:
+        ty = t["type"]
+        if ty == "Doctype":
+            out.append("<!DOCTYPE html>")
+        elif ty == "Comment":
+            out.append("<!--%s-->" % t["data"])
+        elif ty == "Characters":
+            out.append(t["data"] if t.get("raw") else _esc_text(t["data"]))
+        elif ty in ("StartTag", "EmptyTag"):
+            out.append("<" + t["name"] + "".join(' %s="%s"' % (_attr_name([k[0], k[1]]), _esc_attr(v)) for k, v in t["data"].items()) + ">")
+        else:
+            out.append("</%s>" % t["name"])
+    return "".join(out)
+
+
+def writer_omitting(doc):
+    return render_tokens(omit_optional(doc_tokens(doc)))
